@@ -236,6 +236,8 @@ def rule_c(ctx):
         if pp and pp[-1] != "*" and pp[-1][0] == "f" and pp[-1][2] == "idx":
             incs.append(s)
     ctx.ob("one-increment-site", len(incs) == 1, "idx is advanced at exactly one site", incs)
+    ow = K.whole_value_overwrites(ctx.prog, {"util::seq_futures::SeqFuture"})
+    ctx.ob("seq-never-replaced-in-place", not ow, "no statement overwrites a live SeqFuture as a whole (that would rewind idx / drop queued futures)", ow or incs)
     for s in incs:
         conds = b.conditions(s)
         ok = any(ready_cond(c, True) for c in conds) and b.dominates(p, s)
